@@ -198,7 +198,11 @@ func init() {
 			case isFloat && m == 9 && !thorough && !rep[n]:
 				out = append(out, Inst{Pkg: "dpt", Fn: "HarnessC07Float", Args: []int64{m, s, 1}, Note: "all finite float32 values outside the documented range"})
 			case isFloat:
-				out = append(out, Inst{Pkg: "dpt", Fn: "HarnessC07Float", Args: []int64{m, s, 0}, Note: "all finite float32 values (one symbolic 32-bit pattern)"})
+				mode := int64(0)
+				if m == 9 && (thorough || s == 1) {
+					mode = 2 // accuracy also against the step at the value's own magnitude (quick: 9.001 only; all 9.xxx share the 2-byte float coder)
+				}
+				out = append(out, Inst{Pkg: "dpt", Fn: "HarnessC07Float", Args: []int64{m, s, mode}, Note: "all finite float32 values (one symbolic 32-bit pattern)"})
 				if thorough || m != 9 || rep[n] {
 					out = append(out, Inst{Pkg: "dpt", Fn: "HarnessC07Mono", Args: []int64{m, s}, Note: "adjacent-float lemma over all finite float32"})
 				}
@@ -236,7 +240,7 @@ func init() {
 		Quick:    func(l *loaded) []Inst { return c07(l, false) },
 		Thorough: func(l *loaded) []Inst { return c07(l, true) },
 		Covers:   []string{"C07.inrange", "C07.above", "C07.below", "C07.mono.end", "C07.int.end", "C07.struct.valid", "C07.struct.invalid", "C07.string.end"},
-		Bounds:   "float-valued types (5.001, 5.003, 8.003/4/10, all 9.xxx): the complete finite float32 domain as one symbolic 32-bit pattern: accuracy, saturation, shape, self-decodability; monotonicity by the adjacent-float lemma (quick: 5.xxx, 8.xxx and the four distinct clamp pairs of 9.xxx; thorough: every type); integer/bool/enumeration types: all values; struct types: all field values including invalid combinations; strings: lengths 0..16 (thorough ..40) with two fully symbolic rune positions, and 3 fully symbolic runes",
+		Bounds:   "float-valued types (5.001, 5.003, 8.003/4/10, all 9.xxx): the complete finite float32 domain as one symbolic 32-bit pattern: accuracy (within the step of the exponent chosen; for 9.001 - thorough: every 9.xxx - also within the step of the smallest exponent that can hold the value, so a needlessly coarse exponent is a violation), saturation (incl. the bounds themselves being encoded accurately), shape, self-decodability; monotonicity by the adjacent-float lemma (quick: 5.xxx, 8.xxx and the four distinct clamp pairs of 9.xxx; thorough: every type); integer/bool/enumeration types: all values; struct types: all field values including invalid combinations; strings: lengths 0..16 (thorough ..40) with two fully symbolic rune positions, and 3 fully symbolic runes",
 		Outside:  "strings with more than two simultaneously symbolic runes beyond length 3; in the quick tier in-range accuracy and monotonicity of the 9.xxx types are decided for the four distinct clamp pairs (9.001, 9.002, 9.004, 9.027) and only saturation/shape for the other sixteen (all share packF16; C06 decides their in-range re-encoding per type)",
 		Assume:   []string{"tolerance step*(1+2^-10) absorbs the decoder's own float32 evaluation error (DESIGN B.3)"},
 	})
